@@ -94,9 +94,34 @@ Needed(e, V) == DVE(e) \cup (AVE(e) \cap V)
 Ground(e, bound, V) == Needed(e, V) \subseteq bound
 BareUnbound(e, bound) == e.k = "var" /\ e.name \notin bound
 
-Ready(c, bound, V) ==
-  CASE c.k = "atom"  -> \A i \in 1..Len(c.args) :
-                           BareUnbound(c.args[i].e, bound) \/ Ground(c.args[i].e, bound, V)
+(* Variables a body can bind by itself (over-approximation, used only to    *)
+(* tell input parameters of injectible predicates from their outputs).      *)
+RECURSIVE BindableC(_)
+BindableBody(body) == SeqUnion(Len(body), LAMBDA i : BindableC(body[i]))
+BindableC(c) ==
+  CASE c.k = "atom"  -> {c.args[i].e.name : i \in {j \in 1..Len(c.args) : c.args[j].e.k = "var"}}
+    [] c.k = "cmp"   -> {}
+    [] c.k = "unify" -> (IF c.l.k = "var" THEN {c.l.name} ELSE {})
+                        \cup (IF c.r.k = "var" THEN {c.r.name} ELSE {})
+    [] c.k = "inc"   -> IF c.l.k = "var" THEN {c.l.name} ELSE {}
+    [] c.k = "neg"   -> {}
+    [] c.k = "or"    -> SeqUnion(Len(c.alts), LAMBDA i : BindableBody(c.alts[i]))
+
+(* Head fields of an injectible rule that the caller must supply. *)
+InputFields(r) ==
+  {r.head[i].f : i \in {j \in 1..Len(r.head) :
+                           ~(DVE(r.head[j].e) \subseteq BindableBody(r.body))}}
+
+Ready(c, bound, V, ctx) ==
+  CASE c.k = "atom"  -> \* an argument may use variables bound by other arguments of the same atom
+                        LET own == {c.args[i].e.name : i \in {j \in 1..Len(c.args) :
+                                                               BareUnbound(c.args[j].e, bound)}}
+                            inputs == IF ctx.preds[c.p].inline
+                                      THEN InputFields(ctx.preds[c.p].rules[1]) ELSE {}
+                        IN \A i \in 1..Len(c.args) :
+                             (BareUnbound(c.args[i].e, bound) /\ c.args[i].f \notin inputs)
+                             \/ (~BareUnbound(c.args[i].e, bound)
+                                 /\ Ground(c.args[i].e, bound \cup own, V))
     [] c.k = "cmp"   -> Ground(c.e, bound, V)
     [] c.k = "unify" -> \/ Ground(c.l, bound, V) /\ Ground(c.r, bound, V)
                         \/ BareUnbound(c.l, bound) /\ Ground(c.r, bound, V)
@@ -204,16 +229,38 @@ EvalM(e, b, V, ctx) ==
 Apply(c, b, V, ctx) ==
   LET bound == DOMAIN b IN
   CASE c.k = "atom" ->
-         LET gi == {i \in 1..Len(c.args) : ~BareUnbound(c.args[i].e, bound)}
+         \* ui: plain unbound variables (bound by the row); gi: arguments ground
+         \* already; li: arguments that mention variables bound by this very atom
+         \* (checked against the row afterwards through a temporary "$t<i>").
+         LET ui == {i \in 1..Len(c.args) : BareUnbound(c.args[i].e, bound)}
+             gi == {i \in 1..Len(c.args) : i \notin ui /\ Ground(c.args[i].e, bound, V)}
+             li == (1..Len(c.args)) \ (ui \cup gi)
+             Tmp(i) == "$t" \o ToString(i)
              alts == Cross([i \in 1..Len(c.args) |->
                               IF i \in gi THEN EvalM(c.args[i].e, b, V, ctx)
                               ELSE <<Null>>])
+             Late(b2, idx) ==
+               \* bindings (with multiplicity) that survive the late arguments
+               LET RECURSIVE Go(_, _)
+                   Go(bs2, todo) ==
+                     IF todo = {} THEN bs2
+                     ELSE LET i == CHOOSE i \in todo : \A j \in todo : i <= j
+                          IN Go(FlatMap(bs2, LAMBDA bb :
+                                  FlatMap(EvalM(c.args[i].e, bb, V, ctx), LAMBDA v :
+                                    IF Cmp3("==", v, bb[Tmp(i)]) = "t" THEN <<bb>> ELSE <<>>)),
+                                todo \ {i})
+               IN Go(<<b2>>, idx)
+             Clean(b2) == [x \in (DOMAIN b2) \ {Tmp(i) : i \in li} |-> b2[x]]
              Call(vals) ==
                LET pat == [i \in 1..Len(c.args) |->
                              IF i \in gi THEN <<c.args[i].f, "v", vals[i]>>
-                             ELSE <<c.args[i].f, "u", c.args[i].e.name>>]
+                             ELSE IF i \in ui THEN <<c.args[i].f, "u", c.args[i].e.name>>
+                             ELSE <<c.args[i].f, "u", Tmp(i)>>]
                    rs == Lookup(c.p, pat, ctx)
-               IN [i \in 1..Len(rs) |-> rs[i] @@ b]
+                   ext == [i \in 1..Len(rs) |-> rs[i] @@ b]
+               IN IF li = {} THEN ext
+                  ELSE LET kept == FlatMap(ext, LAMBDA b2 : Late(b2, li))
+                       IN [i \in 1..Len(kept) |-> Clean(kept[i])]
          IN FlatMap(alts, Call)
     [] c.k = "cmp" ->
          LET vs == EvalM(c.e, b, V, ctx)
@@ -253,7 +300,7 @@ Solve(body, bs, V, ctx) ==
        IN Flatten([a \in 1..Len(body[i].alts) |->
                      Solve(pre \o body[i].alts[a] \o post, bs, V, ctx)])
   ELSE LET bound == DOMAIN bs[1]
-           ready == {i \in 1..Len(body) : Ready(body[i], bound, V)}
+           ready == {i \in 1..Len(body) : Ready(body[i], bound, V, ctx)}
        IN IF ready = {}
           THEN Assert(FALSE, <<"LSem: rule body is not range-restricted (stuck)", body, bound>>)
           ELSE LET i == CHOOSE i \in ready : \A j \in ready : i <= j
